@@ -123,6 +123,10 @@ def _layouts():
         ((0, 1, [(1, 3)], None), (1, 2, [(2, 0)], 3)),
         ((0, 1, [(5, 2)], 1), (2, 4, [(5, 2)], 1)),
         ((0, 1, [(1, 1)], None), (1, 2, [(2, 2)], None), (2, 3, [], 3)),
+        # contiguous try items guarded by the same handlers stay two records (javac emits them around a finally / return)
+        ((0, 2, [(5, 3)], None), (2, 4, [(5, 3)], None)),
+        ((0, 1, [(5, 4)], 3), (1, 2, [(5, 4)], 3), (2, 4, [(5, 4)], 3)),
+        ((1, 2, [], 4), (2, 3, [], 4)),
     ]
     for t in base:
         yield t, False
@@ -156,3 +160,73 @@ def determine_exception(U):
 
 
 determine_exception.enumerate_inputs = lambda tier, **p: _enum(tier)
+
+
+# ---- determineException on symbolic try tables: every start address / instruction count / handler address / type index is symbolic,
+# each try item picks one of the handler lists (shared or not); the records must be those of the try items one by one
+
+
+class _SymCode:
+    def __init__(self, tries, hlist):
+        self.tries, self.hlist = tries, hlist
+
+    def get_tries_size(self):
+        return len(self.tries)
+
+    def get_tries(self):
+        return self.tries
+
+    def get_handlers(self):
+        return self.hlist
+
+
+class _SymMeth:
+    def __init__(self, code):
+        self.code = code
+
+    def get_code(self):
+        return self.code
+
+
+class _SymVM:
+    def get_cm_type(self, idx):
+        return ("type", idx)
+
+
+@unit("C08", covers=[(DEX, "determineException")],
+      params=[{"ntries": n, "shapes": sh} for n in (1, 2, 3) for sh in ((0,), (1, -1), (-2, 0), (2, 1))], samples=80,
+      note="1..3 try items with symbolic start/count, each bound to one of the handler lists of the given shapes (size > 0: typed "
+           "only, 0: catch-all only, < 0: typed + catch-all), symbolic type indices and handler addresses")
+def determine_exception_symbolic(U, ntries, shapes):
+    dex = U.mod(DEX)
+    base = 1000
+    hs = []
+    for k, size in enumerate(shapes):
+        pairs = [W._Pair(U.int("t%d_%d" % (k, i), 0, 65535), U.int("a%d_%d" % (k, i), 0, 1 << 20)) for i in range(abs(size))]
+        ca = U.int("ca%d" % k, 0, 1 << 20) if size <= 0 else None
+        hs.append(W._Handler(base + 4 + 10 * k, pairs, ca))
+    tries, which = [], []
+    for j in range(ntries):
+        w = U.choice("h%d" % j, list(range(len(shapes))))
+        which.append(w)
+        tries.append(W._Try(U.int("s%d" % j, 0, 1 << 20), U.int("c%d" % j, 1, 65535), 4 + 10 * w))
+    code = _SymCode(tries, W._HandlerList(base, hs))
+    o = U.call(dex.determineException, _SymVM(), _SymMeth(code))
+    U.ensures("does not raise", o.ok, exc=repr(o.exc))
+    if not o.ok:
+        return
+    got = o.value
+    U.ensures("exactly one record per try item (adjacent or overlapping items are never merged)", len(got) == ntries, got=len(got))
+    if len(got) != ntries:
+        return
+    # determineException groups the records by handler list; within a group the items keep their order
+    first = list(dict.fromkeys(which))
+    order = sorted(range(ntries), key=lambda j: (first.index(which[j]), j))
+    for rec, j in zip(got, order):
+        t, h = tries[j], hs[which[j]]
+        want = [t.s * 2, t.s * 2 + t.c * 2 - 1] + [[("type", p.t), p.a * 2] for p in h.pairs]
+        if h.ca is not None:
+            want.append(["Ljava/lang/Throwable;", h.ca * 2])
+        ok = And(len(rec) == len(want), rec[0] == want[0], rec[1] == want[1],
+                 *[And(r[0] == w_[0], r[1] == w_[1]) for r, w_ in zip(rec[2:], want[2:])]) if len(rec) == len(want) else False
+        U.ensures("record of try item %d: start, inclusive end (byte offsets), typed handlers in order, Throwable catch-all last" % j, ok)
